@@ -1090,11 +1090,36 @@ func (s *Server) RemoteSync(
 	}
 	s.Mach.Add1(ssS.MetricSync, nil)
 
+	// serialize with pushes and mutation replies
+	s.lockExport.Lock()
+	defer s.lockExport.Unlock()
+
+	// the latest traced snapshot, or the one from the handshake
+	data := s.tracer.DataLatest()
+	if data == nil {
+		data = s.lastPushData
+	}
+	mTime := slices.Clone(data.mTime)
+	if s.syncSchema {
+		// source-bound indexes: zero the non-tracked states, like in RemoteHello
+		s.lockCollection.Lock()
+		for i := range mTime {
+			if !slices.Contains(s.tracer.trackedStateIdxs, i) {
+				mTime[i] = 0
+			}
+		}
+		s.lockCollection.Unlock()
+	}
+
 	*resp = MsgSrvSync{
-		Time:      s.Source.Time(nil),
-		QueueTick: s.Source.QueueTick(),
+		Time:      mTime,
+		QueueTick: data.queueTick,
+		MachTick:  data.machTick,
 	}
 	s.log("RemoteSync: [%v]", resp.Time)
+
+	// the client holds this snapshot now, diff the next updates against it
+	s.storeLastPush(data)
 
 	return nil
 }
